@@ -150,9 +150,10 @@ where
     }
 
     fn poll_close(mut self: Pin<&mut Self>, cx: &mut Context<'_>) -> Poll<Result<(), Self::Error>> {
-        // The close frame and everything written before it must be on the wire before the close handshake waits for the
-        // peer's answer: the stream's own poll_close does not flush again while it waits, and a buffering transport below
-        // it (TLS) may still hold the last records, in which case both sides would wait for each other for ever.
+        // Closing = the close frame, and everything written before it, is on the wire. The peer's answer is left to the
+        // reading half (which ends with it); waiting for it here, as the stream's own poll_close does, has no bound, and
+        // that poll_close does not flush again while it waits: with a buffering transport below (TLS) the last records
+        // could stay behind while both sides waited for each other.
         if !self.closing {
             ready!(self.stream.poll_ready_unpin(cx)).map_err(|e| anyhow!(e))?;
             match self.stream.start_send_unpin(tokio_websockets::Message::close(None, "")) {
@@ -161,8 +162,7 @@ where
             }
             self.closing = true;
         }
-        ready!(self.stream.poll_flush_unpin(cx)).map_err(|e| anyhow!(e))?;
-        self.stream.poll_close_unpin(cx).map_err(|e| anyhow!(e))
+        self.stream.poll_flush_unpin(cx).map_err(|e| anyhow!(e))
     }
 }
 
